@@ -896,7 +896,9 @@ class BosonicEngine(LocalEngine):
     """
 
     def _run_program(self, prog, **kwargs):
-        # Custom Bosonic run code
-        applied, samples_dict = self.backend.run_prog(prog, **kwargs)
+        # Custom Bosonic run code.  A program that follows an already executed (non-empty) segment
+        # continues the computation, so the backend must not initialise the circuit again.
+        continuation = any(p.circuit for p in self.run_progs)
+        applied, samples_dict = self.backend.run_prog(prog, continuation=continuation, **kwargs)
         samples, samples_dict = self._combine_and_sort_samples(samples_dict)
         return applied, samples, samples_dict
